@@ -22,6 +22,7 @@ void *__real_memmove(void *d, const void *s, size_t n);
 int __real_memcmp(const void *a, const void *b, size_t n);
 void *__real_memset(void *d, int c, size_t n);
 size_t __real_strlen(const char *s);
+static inline void gate(const char *what) { if (g_in_library > 0) { g_gate_hits++; g_gate_last = what; } }
 void *__real_malloc(size_t n);
 void *__real_calloc(size_t a, size_t b);
 void *__real_realloc(void *p, size_t n);
@@ -68,7 +69,16 @@ int __wrap_memcmp(const void *a, const void *b, size_t n) { if (g_in_library > 0
 void *__wrap_memset(void *d, int c, size_t n) { if (g_in_library > 0) libc_yield(); return __real_memset(d, c, n); }
 size_t __wrap_strlen(const char *s) { if (g_in_library > 0) libc_yield(); return __real_strlen(s); }
 
-static inline void gate(const char *what) { if (g_in_library > 0) { g_gate_hits++; g_gate_last = what; } }
+char *__real_setlocale(int c, const char *l);
+char *__real_strdup(const char *s);
+char *__real_getenv(const char *s);
+char *__real_strtok(char *s, const char *d);
+int __real_rand(void);
+char *__wrap_setlocale(int c, const char *l) { gate("setlocale (process-global state)"); return __real_setlocale(c, l); }
+char *__wrap_strdup(const char *s) { gate("strdup"); return __real_strdup(s); }
+char *__wrap_getenv(const char *s) { gate("getenv (process-global state)"); return __real_getenv(s); }
+char *__wrap_strtok(char *s, const char *d) { gate("strtok (static state)"); return __real_strtok(s, d); }
+int __wrap_rand(void) { gate("rand (static state)"); return __real_rand(); }
 void *__wrap_malloc(size_t n) { gate("malloc"); return __real_malloc(n); }
 void *__wrap_calloc(size_t a, size_t b) { gate("calloc"); return __real_calloc(a, b); }
 void *__wrap_realloc(void *p, size_t n) { gate("realloc"); return __real_realloc(p, n); }
